@@ -87,7 +87,63 @@ type C9Op struct {
 	// Cancel (hend, jend): the request context is cancelled "pre" = before the request is issued (client gone /
 	// timed out) or "hook" = when the hub reaches ds.completeFullSync.begin
 	Cancel string `json:"cancel,omitempty"`
-	Par    []C9Op `json:"par,omitempty"`
+	// AtHook (jend): a start request (hstart / jstart) issued from inside ds.completeFullSync.begin of this end,
+	// i.e. another sync starts exactly while the job is ending its own
+	AtHook *C9Op `json:"at_hook,omitempty"`
+	// Rng: entity ranges of the body in compact form (large datasets); expanded in front of Ents before the op runs
+	Rng []C9Range `json:"rng,omitempty"`
+	Par []C9Op    `json:"par,omitempty"`
+}
+
+// C9Range: entities Lo..Hi-1 with content V; Pct>0 keeps a pseudo-random Pct percent of them (chosen by Salt).
+type C9Range struct {
+	Lo   int `json:"lo"`
+	Hi   int `json:"hi"`
+	V    int `json:"v"`
+	Pct  int `json:"pct,omitempty"`
+	Salt int `json:"salt,omitempty"`
+}
+
+func (g C9Range) has(n int) bool {
+	if n < g.Lo || n >= g.Hi {
+		return false
+	}
+	if g.Pct <= 0 || g.Pct >= 100 {
+		return true
+	}
+	h := uint32(n)*2654435761 + uint32(g.Salt)*40503
+	h ^= h >> 13
+	h *= 2246822519
+	h ^= h >> 16
+	return int(h%100) < g.Pct
+}
+
+// c9Expand materialises the ranges of an op (and of its nested ops) into Ents.
+func c9Expand(op C9Op) C9Op {
+	if len(op.Rng) > 0 {
+		var ents []C9Ent
+		for _, g := range op.Rng {
+			for n := g.Lo; n < g.Hi; n++ {
+				if g.has(n) {
+					ents = append(ents, C9Ent{N: n, V: g.V})
+				}
+			}
+		}
+		op.Ents = append(ents, op.Ents...)
+		op.Rng = nil
+	}
+	if len(op.Par) > 0 {
+		par := make([]C9Op, len(op.Par))
+		for i := range op.Par {
+			par[i] = c9Expand(op.Par[i])
+		}
+		op.Par = par
+	}
+	if op.AtHook != nil {
+		n := c9Expand(*op.AtHook)
+		op.AtHook = &n
+	}
+	return op
 }
 
 type C9Case struct {
@@ -127,7 +183,7 @@ func c9Body(r *rand.Rand, avoid map[int]bool, allowDel bool, max int) []C9Ent {
 	return out
 }
 
-func genC9Case(r *rand.Rand, parPct int, hookPct int, tmplPct int, leaseMs int) C9Case {
+func genC9Case(r *rand.Rand, parPct int, hookPct int, tmplPct int, leaseMs int, httpSup bool) C9Case {
 	c := C9Case{LeaseMs: leaseMs}
 	tags := map[string]bool{}
 	L := c.LeaseMs
@@ -192,6 +248,8 @@ func genC9Case(r *rand.Rand, parPct int, hookPct int, tmplPct int, leaseMs int) 
 		}
 		return "Z"
 	}
+	// endWithStartInside: the end of job client cl during which (at ds.completeFullSync.begin) another sync starts
+	var endWithStartInside func(cl *c9Client) C9Op
 	foreignIDOf := func(cl *c9Client) string {
 		if cl.id == "" {
 			return "Z"
@@ -227,6 +285,20 @@ func genC9Case(r *rand.Rand, parPct int, hookPct int, tmplPct int, leaseMs int) 
 		clients = append(clients, &c9Client{job: j})
 		tags["job-sync"] = true
 		return C9Op{K: "jstart", Job: j}
+	}
+	endWithStartInside = func(cl *c9Client) C9Op {
+		tags["start-inside-job-end"] = true
+		cl.ended = true
+		var st C9Op
+		if r.Intn(100) < 60 {
+			st = startHTTP(false)
+		} else {
+			st = startJob()
+		}
+		if cl.http { // only with httpsup=1: known open defect of the HTTP end path, see replays/C09-minimal/r5-*
+			return C9Op{K: "hend", ID: cl.id, AtHook: &st}
+		}
+		return C9Op{K: "jend", Job: cl.job, AtHook: &st}
 	}
 	start := func() C9Op {
 		if r.Intn(100) < 60 {
@@ -345,8 +417,11 @@ func genC9Case(r *rand.Rand, parPct int, hookPct int, tmplPct int, leaseMs int) 
 				f()
 			}
 		}
-		t := r.Intn(11)
-		if t > 8 { // the failed-end order needs several steps in a row: give it a larger share
+		t := r.Intn(14)
+		switch { // orders that need several steps in a row get a larger share
+		case t > 12:
+			t = 9
+		case t > 9:
 			t = 8
 		}
 		tags[fmt.Sprintf("template-%d", t)] = true
@@ -414,6 +489,17 @@ func genC9Case(r *rand.Rand, parPct int, hookPct int, tmplPct int, leaseMs int) 
 				add(C9Op{K: "hbatch", ID: foreignIDOf(h), Ents: c9Body(r, nil, false, 2)})
 				maybe(50, func() { add(longSleep(), endOf(h)) })
 			}
+		case 9: // another sync starts exactly while a job ends its sync; the new sync then runs to its end
+			maybe(40, func() { add(startHTTP(false)) }) // the job itself may have superseded an HTTP sync
+			add(startJob())
+			j := latest()
+			add(batchOf(j, nil))
+			maybe(50, func() { add(batchOf(j, nil)) })
+			add(endWithStartInside(j))
+			n := latest()
+			add(batchOf(n, nil))
+			maybe(50, func() { add(batchOf(n, nil)) })
+			add(endOf(n))
 		case 7: // id-less HTTP sync superseded by a job sync; the HTTP client goes on without id
 			add(startHTTP(true))
 			h := latest()
@@ -461,6 +547,10 @@ func genC9Case(r *rand.Rand, parPct int, hookPct int, tmplPct int, leaseMs int) 
 		case x < 28:
 			c.Ops = append(c.Ops, batchOf(cl, nil))
 		case x < 46:
+			if (!cl.http || httpSup) && r.Intn(100) < 15 {
+				c.Ops = append(c.Ops, endWithStartInside(cl))
+				break
+			}
 			e := endOf(cl)
 			if r.Intn(100) < parPct {
 				e = parWrap(e, cl)
@@ -612,6 +702,7 @@ type c9Run struct {
 	expiry              bool
 	obsTags             map[string]bool
 	zombie              *c9Zombie // HTTP sync whose own end request was refused with 5xx
+	atComp              func()    // set while an end request with AtHook is in flight: issues the nested start
 	cancelAtComp        func()    // set while an end request with Cancel=="hook" is in flight
 	sawParEnd           bool      // a group of concurrent requests containing an end ran earlier in this history
 	jobSyncGotHTTPWrite bool      // a header-less HTTP write was answered 200 inside some job sync of this history
@@ -627,7 +718,10 @@ type c9Run struct {
 func c09FullSync(ctx *Ctx) error {
 	parPct, _ := strconv.Atoi(ctx.Arg("par", "20"))
 	hookPct, _ := strconv.Atoi(ctx.Arg("hooks", "60"))
-	bulk, _ := strconv.Atoi(ctx.Arg("bulk", "0"))
+	bulk, _ := strconv.Atoi(ctx.Arg("bulk", "0")) // number of large-dataset cases at the start of each child
+	if bulk >= 100 {                              // older plans passed an entity count here
+		bulk = 4
+	}
 	tmplPct, _ := strconv.Atoi(ctx.Arg("templates", "30"))
 	if ctx.Replay != "" {
 		b, err := os.ReadFile(ctx.Replay)
@@ -662,9 +756,9 @@ func c09FullSync(ctx *Ctx) error {
 		}
 	}()
 	for i := 0; i < ctx.Cases; i++ {
-		c := genC9Case(r, parPct, hookPct, tmplPct, leaseMs)
-		if bulk > 0 && i == 0 {
-			c = c9BulkCase(r, bulk, c.LeaseMs)
+		c := genC9Case(r, parPct, hookPct, tmplPct, leaseMs, ctx.Arg("httpsup", "") == "1")
+		if i < bulk { // the first `bulk` cases of a child are large-dataset cases
+			c = c9BulkCase(r, c.LeaseMs)
 		}
 		h := hubs[c.LeaseMs]
 		if h == nil {
@@ -676,15 +770,82 @@ func c09FullSync(ctx *Ctx) error {
 	return nil
 }
 
-// c9BulkCase: a sync over more than 1000 entities (the deletion batch is flushed at 1000).
-func c9BulkCase(r *rand.Rand, bulk int, lease int) C9Case {
-	c := C9Case{LeaseMs: lease, Bulk: bulk, Tags: []string{"bulk", "http-sync"}}
-	c.Ops = []C9Op{
-		{K: "hbatch", Ents: c9Body(r, nil, false, 4)},
-		{K: "hstart", ID: "A", Ents: []C9Ent{{N: 0, V: 1}, {N: 100, V: 1}}},
-		{K: "hbatch", ID: "B", Ents: []C9Ent{{N: 101, V: 1}}},
-		{K: "hbatch", ID: "A", Ents: []C9Ent{{N: 102, V: 0}, {N: 1, V: 2}}},
-		{K: "hend", ID: "A"},
+// c9BulkCase: a sync over a dataset of 1100..2300 entities (ids 100..), i.e. more than one scan / deletion page of
+// 1000. The sync re-sends a prefix, a suffix, everything but one 1000-page, a random 90 %, or a prefix without its
+// head; the entities it does not re-send must be tombstoned exactly once wherever they lie in the dataset.
+func c9BulkCase(r *rand.Rand, lease int) C9Case {
+	n := 1100 + 100*r.Intn(13)
+	c := C9Case{LeaseMs: lease, Bulk: n, Tags: []string{"bulk"}}
+	lo, hi := 100, 100+n
+	v := r.Intn(2) // 0 = re-sent unchanged (no new version, but seen), 1 = changed
+	var rng []C9Range
+	pat := r.Intn(6)
+	switch pat {
+	case 0: // prefix: the stale entities lie behind at least one page that has nothing to delete
+		rng = []C9Range{{Lo: lo, Hi: hi - 20 - r.Intn(80), V: v}}
+	case 1: // suffix
+		rng = []C9Range{{Lo: lo + 20 + r.Intn(300), Hi: hi, V: v}}
+	case 2: // everything but (most of) one page of 1000
+		p := r.Intn((n + 999) / 1000)
+		a, b := lo+p*1000+30, lo+p*1000+970
+		if b > hi {
+			b = hi
+		}
+		rng = []C9Range{{Lo: lo, Hi: a, V: v}, {Lo: b, Hi: hi, V: v}}
+	case 3: // random 90 %
+		rng = []C9Range{{Lo: lo, Hi: hi, V: v, Pct: 90, Salt: r.Intn(1000)}}
+	case 4: // prefix without its head: deletions in the first and behind a clean page
+		if n < 2100 {
+			n = 2100 + 100*r.Intn(3)
+			c.Bulk, hi = n, 100+n
+		}
+		rng = []C9Range{{Lo: lo + 10 + r.Intn(50), Hi: hi - 20 - r.Intn(60), V: v}}
+	default: // everything: nothing to delete among the many, only pool entities
+		rng = []C9Range{{Lo: lo, Hi: hi, V: v}}
+	}
+	c.Tags = append(c.Tags, fmt.Sprintf("bulk-pattern-%d", pat))
+	c.Ops = append(c.Ops, C9Op{K: "hbatch", Ents: c9Body(r, nil, false, 4)})
+	// split the re-sent ranges over the start and one or two batches
+	first, rest := rng[:1], rng[1:]
+	if len(rng) == 1 && r.Intn(2) == 0 {
+		g := rng[0]
+		mid := g.Lo + (g.Hi-g.Lo)/2
+		g1, g2 := g, g
+		g1.Hi, g2.Lo = mid, mid
+		first, rest = []C9Range{g1}, []C9Range{g2}
+	}
+	if r.Intn(2) == 0 { // HTTP sync: requests of at most 250 entities, so that one request stays well inside the lease
+		c.Tags = append(c.Tags, "http-sync")
+		var pieces []C9Range
+		for _, g := range rng {
+			for a := g.Lo; a < g.Hi; a += 250 {
+				p := g
+				p.Lo, p.Hi = a, a+250
+				if p.Hi > g.Hi {
+					p.Hi = g.Hi
+				}
+				pieces = append(pieces, p)
+			}
+		}
+		for k, p := range pieces {
+			if k == 0 {
+				c.Ops = append(c.Ops, C9Op{K: "hstart", ID: "A", Rng: []C9Range{p}, Ents: c9Body(r, nil, false, 2)})
+				if r.Intn(2) == 0 {
+					c.Ops = append(c.Ops, C9Op{K: "hbatch", ID: "B", Ents: []C9Ent{{N: hi - 1, V: 2}}})
+					c.Tags = append(c.Tags, "foreign-batch")
+				}
+				continue
+			}
+			c.Ops = append(c.Ops, C9Op{K: "hbatch", ID: "A", Rng: []C9Range{p}})
+		}
+		c.Ops = append(c.Ops, C9Op{K: "hend", ID: "A"})
+	} else { // job sync
+		c.Tags = append(c.Tags, "job-sync")
+		c.Ops = append(c.Ops, C9Op{K: "jstart", Job: 1}, C9Op{K: "jbatch", Job: 1, Rng: first, Ents: c9Body(r, nil, false, 2)})
+		if len(rest) > 0 {
+			c.Ops = append(c.Ops, C9Op{K: "jbatch", Job: 1, Rng: rest})
+		}
+		c.Ops = append(c.Ops, C9Op{K: "jend", Job: 1})
 	}
 	return c
 }
@@ -894,6 +1055,15 @@ func (r *c9Run) hook(point string, ms int) func(string, int64) {
 		if ms > 0 {
 			time.Sleep(time.Duration(ms) * time.Millisecond)
 		}
+		if point == c9HookComp {
+			r.hookMu.Lock()
+			f := r.atComp
+			r.atComp = nil
+			r.hookMu.Unlock()
+			if f != nil {
+				f()
+			}
+		}
 		r.hookMu.Lock()
 		if point == c9HookComp && r.cancelAtComp != nil {
 			r.cancelAtComp()
@@ -946,14 +1116,16 @@ func runC9Case(ctx *Ctx, h *c9Hub, c C9Case, idx int) {
 		var ents []C9Ent
 		for i := 0; i < c.Bulk; i++ {
 			ents = append(ents, C9Ent{N: 100 + i, V: 0})
-			if len(ents) == 200 || i == c.Bulk-1 {
-				if res := r.post(C9Op{K: "hbatch", Ents: ents}); res.Status != 200 {
-					ctx.Out.Inconclusive(cid, "C09", "bulk prelude answered "+strconv.Itoa(res.Status))
+			if len(ents) == 1200 || i == c.Bulk-1 { // big batches through the dataset sink of an (incremental) job
+				if res := r.exec(C9Op{K: "jbatch", Job: c9IncrJob, Ents: ents}); res.Status != 200 {
+					ctx.Out.Inconclusive(cid, "C09", "bulk prelude failed: "+res.Err)
 					return
 				}
 				ents = nil
 			}
 		}
+		ctx.Out.Stat("bulk_cases", 1)
+		ctx.Out.Stat("bulk_entities", int64(c.Bulk))
 	}
 	var err error
 	if r.lastPost, err = r.readFeed(); err != nil {
@@ -1033,14 +1205,36 @@ func (r *c9Run) step(i int, op C9Op) bool {
 	seq0 := r.hookSeq
 	r.hookMu.Unlock()
 
-	ops := []C9Op{op}
+	xop := c9Expand(op)
+	ops := []C9Op{xop}
 	if op.K == "par" {
-		ops = op.Par
+		ops = xop.Par
+	}
+	nested := op.K != "par" && xop.AtHook != nil
+	if nested {
+		ops = []C9Op{xop, *xop.AtHook}
 	}
 	results := make([]c9Res, len(ops))
 	out.Begin(r.cid, i, op)
 	atomic.StoreInt64(&r.opInFlight, int64(i))
-	if len(ops) == 1 {
+	if nested {
+		// the start request is issued by the hook callback of the end request, on the end request's goroutine
+		ran := false
+		r.hookMu.Lock()
+		r.atComp = func() { ran = true; results[1] = r.exec(ops[1]) }
+		r.hookMu.Unlock()
+		results[0] = r.exec(ops[0])
+		r.hookMu.Lock()
+		r.atComp = nil
+		r.hookMu.Unlock()
+		if ran {
+			out.Stat("start_inside_end:"+ops[0].K+":"+ops[1].K+":at-hook", 1)
+		} else {
+			// the end request returned without reaching the hook point: the start simply follows it
+			results[1] = r.exec(ops[1])
+			out.Stat("start_inside_end:"+ops[0].K+":"+ops[1].K+":hook-not-reached", 1)
+		}
+	} else if len(ops) == 1 {
 		results[0] = r.exec(ops[0])
 	} else {
 		var wg sync.WaitGroup
@@ -1068,11 +1262,26 @@ func (r *c9Run) step(i int, op C9Op) bool {
 	tr := map[string]any{"op": i, "k": op.K, "res": results, "feed_len": len(post), "lease_goroutines_finished_during_op": leaseExits}
 	if op.K != "par" {
 		tr["id"], tr["job"], tr["ents"] = op.ID, op.Job, op.Ents
+		if len(op.Rng) > 0 {
+			tr["rng"] = op.Rng
+		}
+		if op.Cancel != "" {
+			tr["cancel"] = op.Cancel
+		}
+		if op.AtHook != nil {
+			tr["at_hook"] = op.AtHook
+		}
 	} else {
 		tr["par"] = op.Par
 	}
 	if len(post) >= len(pre) {
-		tr["appended"] = post[len(pre):]
+		app := post[len(pre):]
+		if len(app) > 40 { // large datasets: keep the witness readable
+			tr["appended_count"] = len(app)
+			tr["appended_tombstones"] = c9CountDel(app)
+			app = app[:40]
+		}
+		tr["appended"] = app
 	}
 	r.trace = append(r.trace, tr)
 	if op.K == "sleep" {
@@ -1100,14 +1309,14 @@ func (r *c9Run) step(i int, op C9Op) bool {
 			out.Stat("order:lease-expired-inside-end-request-before-release", 1)
 		}
 	}
-	r.judge(i, op.K == "par", ops, results, pre, post, leaseExits, seq0)
+	r.judge(i, op.K == "par" || nested, nested, ops, results, pre, post, leaseExits, seq0)
 	r.lastPost = post
 	return true
 }
 
 // judge compares the effect of one (group of concurrent) request(s) with what
 // the recorded status codes allow.
-func (r *c9Run) judge(i int, par bool, ops []C9Op, res []c9Res, pre, post []C9Ent, leaseExits int, seq0 int64) {
+func (r *c9Run) judge(i int, par bool, nested bool, ops []C9Op, res []c9Res, pre, post []C9Ent, leaseExits int, seq0 int64) {
 	out := r.ctx.Out
 	for k := range ops {
 		if res[k].Status == c9StatusPanic {
@@ -1155,6 +1364,24 @@ func (r *c9Run) judge(i int, par bool, ops []C9Op, res []c9Res, pre, post []C9En
 			writtenBefore[n] = true
 		}
 	}
+	applyStart := func(op C9Op) {
+		r.zombie = nil // whatever was left of an earlier sync is superseded now
+		if r.cur != nil {
+			r.supersede = true
+			r.obsTags["supersede"] = true
+			out.Stat("supersessions:"+strings.SplitN(r.cur.owner, ":", 2)[0]+"-by-"+op.K, 1)
+		}
+		r.cur = &c9Sync{startOp: i, written: map[int]bool{}, maybeWritten: map[int]bool{}, viaTxn: map[int]bool{}, hookSeqAtStart: seq0}
+		if op.K == "hstart" {
+			r.cur.owner, r.cur.id = "http:"+op.ID, op.ID
+			for _, e := range op.Ents {
+				r.cur.written[e.N] = true
+			}
+		} else {
+			r.cur.owner = "job:" + strconv.Itoa(op.Job)
+			r.cur.job = true
+		}
+	}
 	for k := range ops {
 		op, st := ops[k], res[k].Status
 		switch op.K {
@@ -1164,22 +1391,29 @@ func (r *c9Run) judge(i int, par bool, ops []C9Op, res []c9Res, pre, post []C9En
 				r.obsTags["start-refused"] = true
 				continue
 			}
-			r.zombie = nil // whatever was left of an earlier sync is superseded now
-			if r.cur != nil {
-				r.supersede = true
-				r.obsTags["supersede"] = true
-				out.Stat("supersessions:"+strings.SplitN(r.cur.owner, ":", 2)[0]+"-by-"+op.K, 1)
-			}
-			r.cur = &c9Sync{startOp: i, written: map[int]bool{}, maybeWritten: map[int]bool{}, viaTxn: map[int]bool{}, hookSeqAtStart: seq0}
-			if op.K == "hstart" {
-				r.cur.owner, r.cur.id = "http:"+op.ID, op.ID
-				addBody(bodies, op.Ents)
-				for _, e := range op.Ents {
-					r.cur.written[e.N] = true
+			if nested {
+				// a start issued while the end request ops[0] was inside the hub. Either order is acceptable:
+				// the end completes ITS sync first (200: judged below against the sync that was current before,
+				// the start's body may be ordered before or after that completion), or the start supersedes it
+				// (error / no effect). In both the new sync is the current one afterwards - it is installed in
+				// the model when this judgement is done.
+				if op.K == "hstart" {
+					addBody(bodies, op.Ents)
+					for _, e := range op.Ents {
+						concurrent[e.N] = true
+					}
 				}
-			} else {
-				r.cur.owner = "job:" + strconv.Itoa(op.Job)
-				r.cur.job = true
+				if r.cur != nil {
+					r.supersede = true
+				}
+				r.obsTags["start-inside-end"] = true
+				startOp := op
+				defer applyStart(startOp)
+				continue
+			}
+			applyStart(op)
+			if op.K == "hstart" {
+				addBody(bodies, op.Ents)
 			}
 		case "hbatch", "jbatch", "txn":
 			// a transaction carries no sync id and is never checked against one: it is a plain write into the dataset
@@ -1313,6 +1547,8 @@ func (r *c9Run) judge(i int, par bool, ops []C9Op, res []c9Res, pre, post []C9En
 			}
 			// attribution: the narrowest recorded fact of the history that can explain a wrong deletion set
 			switch {
+			case nested:
+				qual = "start-inside-end" // another sync was started while this end request was inside the hub
 			case len(r.cur.foreignEnds) > 0:
 				qual = "after-superseded-job-end" // a superseded job's end already ran inside this sync
 			case len(r.cur.foreignHTTPEnds) > 0:
@@ -1555,9 +1791,12 @@ func (r *c9Run) judge(i int, par bool, ops []C9Op, res []c9Res, pre, post []C9En
 					all = false
 				}
 			}
-			if all { // narrower than any history-level attribution: exactly the transaction-written entities were lost
+			if all && !nested { // narrower than any history-level attribution: exactly the transaction-written entities were lost
 				qual = "written-by-transaction"
 			}
+		}
+		if qual == "" && r.cas.Bulk > 0 {
+			qual = "large-dataset" // more than one scan / deletion page of 1000 entities
 		}
 		if qual != "" {
 			class += "+" + qual
@@ -1589,6 +1828,15 @@ func (r *c9Run) judge(i int, par bool, ops []C9Op, res []c9Res, pre, post []C9En
 	exp := map[string]any{"must_tombstone_once": c9Keys(mustTomb), "may_tombstone_once": c9Keys(mayTomb), "live_with": c9Vals(bodies)}
 	r.viol(i, class, fmt.Sprintf("op %d (%s, answered %v): %s", i, c9Describe(ops), c9Statuses(res), strings.Join(problems, "; ")), exp,
 		map[string]any{"appended": delta, "latest_after": c9Vals(postLatest), "problems": problems})
+}
+
+func c9CountDel(es []C9Ent) (n int) {
+	for _, e := range es {
+		if e.Del {
+			n++
+		}
+	}
+	return
 }
 
 func c9Keys(m map[int]bool) []int {
